@@ -82,7 +82,7 @@ class Interrupter:
         return None
 
 
-def build(subject, out, save_frequency, compressed):
+def build(subject, out, save_frequency, compressed, generation=0):
     dname, dkw, mk, cdef, nkw = SUBJECTS[subject]
     code = mk()
     if cdef:
@@ -94,7 +94,9 @@ def build(subject, out, save_frequency, compressed):
         if near:
             em = PauliErrorModel(0.0, 0.0, 1.0) if j == 0 else PauliErrorModel(1e-7, 0.0, 1.0 - 1e-7)
         dec = getattr(PD, dname)(code, em, p, **dkw)
-        batch.append(DirectSimulation(code, em, dec, p, rng=np.random.default_rng(int(p * 100) + j),
+        # (a later generation of objects draws other errors: trials that were saved can then
+        # be told from trials that were run again)
+        batch.append(DirectSimulation(code, em, dec, p, rng=np.random.default_rng(int(p * 100) + j + 1000 * generation),
                                       verbose=False, compress=compressed))
     return batch
 
@@ -165,7 +167,7 @@ def one_point(subject, k, work, save_frequency, compressed):
         rec['same_raised'] = run_quietly(batch)
         rec['same_file'] = read_file(out)
         rec['same_mem'] = [_summary(dict(s.results)) for s in batch._simulations]
-        fresh = build(subject, out2, save_frequency, compressed)
+        fresh = build(subject, out2, save_frequency, compressed, generation=1)
         rec['fresh_raised'] = run_quietly(fresh)
         rec['fresh_file'] = read_file(out2)
         return rec
@@ -193,7 +195,7 @@ def long_run(item):
         rec['same_raised'] = run_quietly(b1, target)
         rec['same_file'] = read_file(out)
         rec['same_mem'] = [_summary(dict(s.results)) for s in b1._simulations]
-        fresh = build(subject, out2, save_frequency, compressed)
+        fresh = build(subject, out2, save_frequency, compressed, generation=1)
         rec['fresh_raised'] = run_quietly(fresh, target)
         rec['fresh_file'] = read_file(out2)
         return [rec]
